@@ -172,8 +172,12 @@ def check_C12(ctx):
                     {"DelV", "DelE", "DelF", "DelC", "SwapV", "SwapE", "SwapF", "SwapC", "GC", "EnVBU", "EnEBU", "EnFBU", "EnDef", "AddE", "AddFV", "AddC"},
                     assumptions=["'no operation reads a disabled cache out of range' is decided on the real library by ASan/UBSan/_GLIBCXX_ASSERTIONS on every lock-step run "
                                  "(all 8 incidence subsets x 4 deletion modes) and by the twin-mesh oracle, not by a theorem (the model totalises vector reads)",
-                                 "edge incidences after re-enabling: exact incl. the re-ordering, and every toggle is an operation of C01's history class (Properties_C01_all.v: C12_*)"])
+                                 "edge incidences after re-enabling: exact incl. the re-ordering, and every toggle is an operation of C01's history class (Properties_C01_all.v: C12_*)",
+                                 "'the same mesh as with all kinds enabled' along whole histories: proved for the decidable class indep_ops (Properties_C12_history.v: same core and same call results as the "
+                                 "history with every toggle removed); refuted in general by parallel edges + duplicate-avoiding lookups (known finding parallel-edge-choice) and by swaps with deletions pending "
+                                 "(D13); immediate FAST deletions and FAST collection are outside the proved class and carried by the twin-mesh oracle"])
     also_prove_file(ctx, "Props/Properties_C01_all.v", samples=0)      # holds the C12_reenabled_* theorems
+    also_prove_file(ctx, "Props/Properties_C12_history.v")               # first sentence at the history level (Kernel7/Indep*.v): _partial + _refuted (known finding parallel-edge-choice)
 
 def check_C04(ctx):
     os.environ["KGEN_STATUSGC"] = "1"     # the valid/swaps profiles then also call StatusAttrib::garbage_collection
